@@ -293,7 +293,7 @@ func TestC20_S1Stats(t *testing.T) {
 
 func quiesceProfile(name string) *vh.Profile {
 	return &vh.Profile{Name: name, Executors: both(), MinLen: 1, MaxLen: 100, MaxKeys: 10,
-		Ops: with(vh.BaseOps(), "set", 24, "quiesce", 3, "runtasks", 8, "setmaximum", 3, "invalidate", 6, "compute", 8, "iter", 3)}
+		Ops: with(vh.BaseOps(), "set", 24, "quiesce", 3, "runtasks", 8, "setmaximum", 3, "invalidate", 6, "compute", 8, "iter", 3, "burst", 1)}
 }
 
 func TestC04_S1Bound(t *testing.T) {
@@ -318,6 +318,9 @@ func TestC04_S1Bound(t *testing.T) {
 			}
 			if r.St.WeightChanges > 0 {
 				c = append(c, "weight-change")
+			}
+			if r.St.Bursts > 0 {
+				c = append(c, "write-buffer-filled")
 			}
 			return c
 		},
